@@ -6,7 +6,7 @@ monitor (a read of a freed, poisoned object), a runtime assertion, or the arena'
 """
 import copy
 
-from . import core, corpus, schedules, workloads
+from . import allgens, core, corpus, schedules, workloads
 from .runner import Check
 
 ENUM_LIMIT = 400        # programs with more collectable allocation points than this are sampled
@@ -67,6 +67,7 @@ class C05(Check):
         return len(self.plan(tier))
 
     def prepare(self, ctx):
+        allgens.register_all()
         self.programs = corpus.load()
         self.the_plan = self.plan(ctx.tier)
         self.startup = self.startup_probe(ctx)
